@@ -11,6 +11,7 @@ import PqV.Drv.Thrift
 import PqV.Drv.Dtype
 import PqV.Drv.File
 import PqV.Drv.Nested
+import PqV.Drv.WPage
 /-
   `pqv` — line-protocol driver over the executable definitions of PqV (Spec, Impl, Gen).
   One request per line on stdin, one reply per line on stdout.  Pure per line.
@@ -38,6 +39,7 @@ def handleLine (line : String) : String :=
     | "dtype" => handleDtype op a
     | "file" => handleFile op a
     | "nested" => handleNested op a
+    | "wpage" => handleWPage op a
     | _ => s!"err unknown-stream {stream}"
   | _ => "err bad-request"
 
